@@ -48,7 +48,7 @@ def correspondence(ctx):
         jobs = []
         lines = []
         for cons in ok:
-            ks = [rng.randint(0, 10) for _ in range(rng.randint(0, 9))]
+            ks = [rng.randint(0, 10) for _ in range(rng.randint(0, 9) if rng.random() < 0.8 else rng.randint(12, 20))]
             if rng.random() < 0.4:
                 ks += [r for c, r in cons if c != "star"]
             rng.shuffle(ks)
@@ -102,15 +102,20 @@ def correspondence(ctx):
             else:
                 ctx.disagree(stream, line, impl, ans, False, d, spec=ans)
         # from_versions
-        for _ in range(per // 4):
+        for i in range(per // 4):
             m = bench.mapping(11, rng)
-            ks = [rng.randint(0, 10) for _ in range(rng.randint(0, 6))]
-            texts = [m[k][0] for k in ks]
-            ctx.count("from_versions:" + name, key=tuple(ks), nontrivial=len(set(ks)) >= 2)
+            # short lists, and lists of ten or more versions (with repetitions, a repeated version in another spelling)
+            ks = [rng.randint(0, 10) for _ in range(rng.randint(0, 6) if i % 3 else rng.randint(10, 16))]
+            texts, seen_k = [], set()
+            for k in ks:
+                texts.append(bench.alt(m[k], rng)[0] if k in seen_k else m[k][0])
+                seen_k.add(k)
+            ctx.count("from_versions:" + name, key=tuple(ks), nontrivial=len(set(ks)) >= 2, branch="n>=10" if len(ks) >= 10 else "short")
             try:
                 fv = rcls.from_versions(texts)
                 for x in range(11):
-                    got = m[x][1] in fv
+                    # the probe is another object, in another spelling of the version when the pool has one
+                    got = bench.alt(m[x], rng)[1] in fv
                     if got != (x in ks):
                         ctx.disagree("from_versions:" + name, "fromversions %s" % ks, "%s in result is %s" % (m[x][0], got), str(x in ks), True,
                                      {"scheme": name, "versions": texts, "probe": m[x][0], "clause": "membership differs from being listed"},
